@@ -41,6 +41,11 @@ def common_opts(src, annotated=True):
 @st.composite
 def scenarios(draw):
     src = S.DrawSrc(draw)
+    if src.bool(0.08):
+        # a gene whose reads form two separate clusters, with another gene's cluster between them
+        sc = S.gen_islands_locus(src, nested=src.bool(0.8))
+        sc["opts"] = common_opts(src, True)
+        return sc
     annotated = src.bool(0.7)
     exact = src.bool(0.5)
     sc = S.gen_discovery(src, n_chroms=(1, 4), genes_per_chrom=(1, 3), with_annotation=annotated,
